@@ -75,6 +75,20 @@ def gen(tier, rng):
         cases.append(f"envelope\t{hexs(f) if f != '-' else '-'}\t{hexlist([t.encode() for t in to])}")
         if to:
             cases.append(f"mailcmd\t{hexs(f) if f != '-' else '-'}\t{hexs(to[0])}")
+    # envelopes that do not come from Envelope::new: JSON with keys missing, null, empty, of the wrong type, repeated
+    import json as _json
+    fwd = ['[]', '["a@b.c"]', '["a@b.c","x@y.z"]', 'null', '""', '"a@b.c"', '[null]', '{}', '[[]]', '["not an address"]']
+    rev = ['null', '"a@b.c"', '""', '[]', '"<>"']
+    docs = ['{}', '[]', 'null', '{"reverse_path":null}', '{"reverse_path":"a@b.c"}', '{"forward_path":[]}', '{"forward_path":null}',
+            '{"forward_path":[],"forward_path":["a@b.c"]}', '{"forward_path":["a@b.c"],"forward_path":[]}', '[["a@b.c"],null]', '[[],null]', '[[]]',
+            '{"FORWARD_PATH":["a@b.c"]}', '{"to":["a@b.c"]}']
+    for fw in fwd:
+        for rv in rev:
+            docs.append('{"forward_path":%s,"reverse_path":%s}' % (fw, rv))
+            docs.append('{"reverse_path":%s,"forward_path":%s}' % (rv, fw))
+            docs.append('{"reverse_path":%s,"forward_path":%s,"extra":1}' % (rv, fw))
+    for dct in docs:
+        cases.append(f"envjson\t{hexs(dct)}")
     for i in range(nargv):
         k = rng.choice([1, 1, 2, 3])
         to = [rng.choice(good) for _ in range(k)]
@@ -110,7 +124,7 @@ def text_of(case):
 
 def nontrivial(case):
     f = case.split("\t")
-    if f[0] in ("envelope", "mailcmd", "argv", "envcheck"):
+    if f[0] in ("envelope", "envjson", "mailcmd", "argv", "envcheck"):
         return True
     t = text_of(case)
     return t.count("@") > 1 or any(c in t for c in "\"[]<>\\ \r\n\t") or any(ord(c) > 127 or ord(c) < 32 for c in t)
